@@ -330,4 +330,109 @@ __CPROVER_ensures(t->flags == __CPROVER_old(t->flags) && t->entries == __CPROVER
     && t->entry == __CPROVER_old(t->entry))
 ;
 
+/* ---- C05: invariant, bit operations, sanitise ---------------------------------- */
+
+extern uint64_t g_old_bits;      /* ghost: the pattern a register holds at entry */
+
+/* Inv(i): a register constrained by min/max/range/callback holds a value that
+ * decodes and satisfies its constraint (table in normal operation: not during
+ * initialisation) */
+static inline bool rt_constrained(const RegisterTable *t, RegisterHandle i)
+{
+  const RegisterValidatorType c = t->entry[i].check.type;
+  return c == REGV_TYPE_MIN || c == REGV_TYPE_MAX || c == REGV_TYPE_RANGE || c == REGV_TYPE_CALLBACK;
+}
+
+/* the pattern `bits` read as register i's type decodes and is valid for it */
+static inline bool rt_bits_acceptable(const RegisterTable *t, RegisterHandle i, uint64_t bits)
+{
+  const RegisterEntry *e = t->entry + i;
+  RegisterValueU u;
+  u.u64 = bits;
+  return SPEC_FLOAT_OK(e->type, u) && SPEC_VALID(e, e->type, u, false);
+}
+
+static inline bool rt_inv(const RegisterTable *t, RegisterHandle i)
+{
+  return !rt_constrained(t, i) || rt_bits_acceptable(t, i, rt_bits(t, i));
+}
+
+/* registers i and j do not share storage words (what register_init
+ * establishes for any two registers: distinct areas have distinct storage,
+ * registers of one area do not overlap) */
+static inline bool rt_disjoint(const RegisterTable *t, RegisterHandle i, RegisterHandle j)
+{
+  const RegisterEntry *a = t->entry + i, *b = t->entry + j;
+  if (i == j)
+    return false;
+  if (a->area != b->area)
+    return !__CPROVER_same_object(a->area->mem, b->area->mem);
+  return a->offset + (uint64_t)SPEC_REG_WORDS(a->type) <= b->offset
+      || b->offset + (uint64_t)SPEC_REG_WORDS(b->type) <= a->offset;
+}
+
+/* bit set / bit clear.  g_old_bits names the pattern held at entry (bound in
+ * `requires`; __CPROVER_old cannot go through the table of an uninitialised
+ * table).  Outcome per the statement: exactly the requested bits of an
+ * unsigned register change (new == old | mask resp. old & ~mask); signed,
+ * float and type-mismatched operands are refused; the new value goes through
+ * the checked set, so a constraint violation (or an area without write
+ * callback) is refused; every refusal leaves all storage unchanged. */
+static inline uint64_t rt_bitop_new(const RegisterTable *t, RegisterHandle idx, RegisterValue v, bool set, uint64_t old_bits)
+{
+  const uint64_t mask = SPEC_BITS(t->entry[idx].type, v.value);
+  return set ? (old_bits | mask) : (old_bits & ~mask);
+}
+
+static inline bool rt_bitop_code_ok(const RegisterTable *t, RegisterHandle idx, RegisterValue v, bool set,
+                                    uint8_t rd_verdict, uint8_t wr_verdict, uint64_t old_bits,
+                                    RegisterAccessCode code)
+{
+  if (!RT_INIT(t))
+    return code == REG_ACCESS_UNINITIALISED;
+  if (idx >= t->entries)
+    return code == REG_ACCESS_NOENTRY;
+  const RegisterEntry *e = t->entry + idx;
+  const bool rd_refused = e->area->read == st_area_read && ST_REFUSES(rd_verdict);
+  const bool operand_ok = SPEC_REG_IS_UNSIGNED(e->type) && v.type == e->type;
+  if (rd_refused || !operand_ok)
+    return (rd_refused && code == ST_CODE(rd_verdict)) || (!operand_ok && code == REG_ACCESS_INVALID);
+  RegisterValueU nv;
+  nv.u64 = rt_bitop_new(t, idx, v, set, old_bits);
+  const bool r_range = !SPEC_VALID(e, e->type, nv, RT_DURING(t));
+  const bool r_readonly = e->area->write == NULL;
+  if (r_range || r_readonly)
+    return (r_range && code == REG_ACCESS_RANGE) || (r_readonly && code == REG_ACCESS_READONLY);
+  if (e->area->write == st_area_write && ST_REFUSES(wr_verdict))
+    return code == ST_CODE(wr_verdict);
+  return code == REG_ACCESS_SUCCESS;
+}
+
+#define RT_BITOP_CONTRACT(t, idx, v, SET) \
+__CPROVER_requires(__CPROVER_r_ok(t, sizeof(RegisterTable))) \
+__CPROVER_requires(__CPROVER_rw_ok(g_cell, sizeof(RegisterAtom))) \
+__CPROVER_requires(IMPLIES(RT_ADDRESSED(t, idx), RT_ENTRY_OK(t, idx) && RT_AREA_W_OK(t, idx) && RT_AREA_R_OK(t, idx))) \
+__CPROVER_requires(IMPLIES(RT_ADDRESSED(t, idx), g_old_bits == rt_bits(t, idx))) \
+__CPROVER_assigns(st_rd_verdict, st_wr_verdict; \
+    RT_ADDRESSED(t, idx) && SPEC_REG_W1(RT_TY(t, idx)): __CPROVER_object_upto(RT_W(t, idx), 1u * sizeof(RegisterAtom)); \
+    RT_ADDRESSED(t, idx) && SPEC_REG_W2(RT_TY(t, idx)): __CPROVER_object_upto(RT_W(t, idx), 2u * sizeof(RegisterAtom)); \
+    RT_ADDRESSED(t, idx) && SPEC_REG_W4(RT_TY(t, idx)): __CPROVER_object_upto(RT_W(t, idx), 4u * sizeof(RegisterAtom))) \
+__CPROVER_ensures(rt_bitop_code_ok(t, idx, v, SET, __CPROVER_old(st_rd_verdict), __CPROVER_old(st_wr_verdict), \
+    g_old_bits, __CPROVER_return_value.code)) \
+__CPROVER_ensures(IMPLIES(__CPROVER_return_value.code == REG_ACCESS_SUCCESS, \
+    rt_holds(t, idx, rt_bitop_new(t, idx, v, SET, g_old_bits)))) \
+__CPROVER_ensures(IMPLIES(__CPROVER_return_value.code != REG_ACCESS_SUCCESS, *g_cell == __CPROVER_old(*g_cell))) \
+__CPROVER_ensures(IMPLIES(__CPROVER_return_value.code == REG_ACCESS_SUCCESS && rt_cell_beside(t, idx, g_cell, g_k), \
+    *g_cell == __CPROVER_old(*g_cell))) \
+__CPROVER_ensures(t->flags == __CPROVER_old(t->flags) && t->entries == __CPROVER_old(t->entries) \
+    && t->entry == __CPROVER_old(t->entry))
+
+RegisterAccess register_bit_set(RegisterTable *t, const RegisterHandle idx, const RegisterValue v)
+RT_BITOP_CONTRACT(t, idx, v, true)
+;
+
+RegisterAccess register_bit_clear(RegisterTable *t, const RegisterHandle idx, const RegisterValue v)
+RT_BITOP_CONTRACT(t, idx, v, false)
+;
+
 #endif /* CONTRACTS_REGISTERS_TYPED_H */
